@@ -13,6 +13,10 @@ var shortKeys = [][]byte{
 	[]byte("abc"), []byte("b\x00"), {0x80, 0x01}, {0xff}, {0x00}, {0x7f, 0x80},
 	// keys that continue a shorter key (a prefix) with 0xff bytes: the top of a prefix range
 	{'a', 0xff}, {'a', 0xff, 'z'}, {'a', 0xff, 0xff, 0x01}, {'a', 'b', 0xff, 0x00},
+	// structured keys longer than a machine word: twins that agree in their first 7 bytes, differ in the 8th (or only in
+	// the low bits of the 7th) and agree again behind it
+	[]byte("user:001:name"), []byte("user:002:name"), []byte("key-00010"), []byte("key-00020"),
+	[]byte("abcdef\x00z-tail"), []byte("abcdef\x01z-tail"), []byte("user:001"), []byte("user:00"),
 }
 
 func init() {
@@ -263,7 +267,13 @@ func GenOp(t *rapid.T, r *Runner, pool *KeyPool, p *GenProfile) Op {
 					w.VLen = ValueLen(t, r, len(key), 0, false)
 				}
 			}
-			op.Race = append(op.Race, RaceOp{At: at, Op: w})
+			rc := RaceOp{At: at, Op: w}
+			if at >= 0 && (w.K == "put" || w.K == "del") && Pct(t, 35, "late") {
+				// inside the check-then-act window of the scan: to the key of the record being rewritten
+				rc.Late = true
+				rc.At = U(t, 6, "lateat")
+			}
+			op.Race = append(op.Race, rc)
 		}
 		return op
 	}
